@@ -29,6 +29,7 @@ import (
 	"sort"
 	"strings"
 	"strconv"
+	"sync"
 	"sync/atomic"
 	"syscall"
 	"time"
@@ -671,6 +672,8 @@ type Finding struct {
 	Detail    string `json:"detail,omitempty"`
 }
 
+var shards = 6
+
 func run(casesPath, outPath string, seed int64, nrandom int) int {
 	raw, err := os.ReadFile(casesPath)
 	if err != nil {
@@ -757,26 +760,78 @@ func run(casesPath, outPath string, seed int64, nrandom int) int {
 			reqs = append(reqs, Req{Label: fmt.Sprintf("%s|random#%d", e.Name, i), Method: "GET", URL: build(e, q, "", ""), Fault: "none"})
 		}
 	}
-	ch, err := startChild()
-	if err != nil {
-		fmt.Fprintln(os.Stderr, err)
-		return 2
-	}
 	probe := Req{Label: "probe", Method: "GET", URL: build(emap["loki_query_range"], `{app="a1"}`, "", ""), Fault: "none"}
-	if rs, ok := ch.send(probe); !ok || rs.Code != 200 || !strings.Contains(rs.Body, "success") {
-		fmt.Fprintf(os.Stderr, "probe fails on a fresh child: %+v\n%s\n", rs, ch.stderr.String())
-		return 2
-	}
+	var mu sync.Mutex
 	var findings []Finding
 	sigCount := map[string]int{}
 	add := func(f Finding) {
+		mu.Lock()
+		defer mu.Unlock()
 		sigCount[f.Signature]++
 		if sigCount[f.Signature] <= 2 {
 			if len(f.Req.URL) > 1500 {
 				f.Req.URL = f.Req.URL[:1500] + "...(truncated)"
 			}
+			if len(f.Req.Body) > 1500 {
+				f.Req.Body = f.Req.Body[:1500] + "...(truncated)"
+			}
 			findings = append(findings, f)
 		}
+	}
+	codes := map[string]int{}
+	restarts := 0
+	var infra []string
+	unsup := map[string]bool{}
+	for i := range reqs {
+		reqs[i].ID = i + 1
+	}
+	// the requests are independent of each other: shards run in parallel, each against its own child process
+	nshards := shards
+	if nshards < 1 {
+		nshards = 1
+	}
+	var wg sync.WaitGroup
+	for sh := 0; sh < nshards; sh++ {
+		var mine []Req
+		for i := sh; i < len(reqs); i += nshards {
+			mine = append(mine, reqs[i])
+		}
+		wg.Add(1)
+		go func(mine []Req) {
+			defer wg.Done()
+			runShard(mine, probe, add, &mu, codes, &restarts, &infra, unsup)
+		}(mine)
+	}
+	wg.Wait()
+	var ul []string
+	for u := range unsup {
+		ul = append(ul, u)
+	}
+	sort.Strings(ul)
+	res := map[string]any{"requests": len(reqs), "cases": len(cases), "random_queries": len(reqs) - len(cases), "status_codes": codes, "child_restarts": restarts,
+		"findings": findings, "signature_counts": sigCount, "infra": infra, "chsql_unsupported": ul}
+	b, _ := json.MarshalIndent(res, "", " ")
+	os.WriteFile(outPath, b, 0644)
+	if len(infra) > 0 {
+		return 2
+	}
+	return 0
+}
+
+// runShard sends its requests, one after the other, to a child process of its own
+func runShard(reqs []Req, probe Req, add func(Finding), mu *sync.Mutex, codes map[string]int, restarts *int, infra *[]string, unsup map[string]bool) {
+	ch, err := startChild()
+	if err != nil {
+		mu.Lock()
+		*infra = append(*infra, err.Error())
+		mu.Unlock()
+		return
+	}
+	if rs, ok := ch.send(probe); !ok || rs.Code != 200 || !strings.Contains(rs.Body, "success") {
+		mu.Lock()
+		*infra = append(*infra, fmt.Sprintf("probe fails on a fresh child: %+v %s", rs, ch.stderr.String()))
+		mu.Unlock()
+		return
 	}
 	restart := func() bool {
 		ch.kill()
@@ -787,13 +842,8 @@ func run(casesPath, outPath string, seed int64, nrandom int) int {
 		rs, ok := ch.send(probe)
 		return ok && rs.Code == 200
 	}
-	codes := map[string]int{}
-	restarts := 0
-	var infra []string
-	unsup := map[string]bool{}
 	for i := range reqs {
 		rq := reqs[i]
-		rq.ID = i + 1
 		ep := strings.SplitN(rq.Label, "|", 2)[0]
 		rs, ok := ch.send(rq)
 		if !ok {
@@ -803,17 +853,23 @@ func run(casesPath, outPath string, seed int64, nrandom int) int {
 				stderr = stderr[len(stderr)-3000:]
 			}
 			add(Finding{Signature: "crash|" + ep + "|" + fn, Msg: fmt.Sprintf("request %q terminates the process: %s (in %s)", rq.Label, msg, fn), Label: rq.Label, Req: rq, Detail: stderr})
-			restarts++
+			mu.Lock()
+			*restarts++
+			mu.Unlock()
 			if !restart() {
-				infra = append(infra, "cannot restart child")
+				mu.Lock()
+				*infra = append(*infra, "cannot restart child")
+				mu.Unlock()
 				break
 			}
 			continue
 		}
+		mu.Lock()
 		for _, u := range rs.Unsup {
 			unsup[strings.SplitN(u, "::", 2)[0]] = true
 		}
 		codes[fmt.Sprintf("%s:%d", ep, rs.Code)]++
+		mu.Unlock()
 		if rs.Timeout {
 			kind, where := "blocked", strings.Join(rs.Left, ",")
 			if len(rs.Spinning) > 0 {
@@ -825,9 +881,13 @@ func run(casesPath, outPath string, seed int64, nrandom int) int {
 				f0 = first[0]
 			}
 			add(Finding{Signature: "hang|" + ep + "|" + kind + "|" + f0, Msg: fmt.Sprintf("request %q is not answered within the time limit; goroutine(s) %s in %s", rq.Label, kind, where), Label: rq.Label, Req: rq})
-			restarts++
+			mu.Lock()
+			*restarts++
+			mu.Unlock()
 			if !restart() {
-				infra = append(infra, "cannot restart child")
+				mu.Lock()
+				*infra = append(*infra, "cannot restart child")
+				mu.Unlock()
 				break
 			}
 			continue
@@ -842,9 +902,13 @@ func run(casesPath, outPath string, seed int64, nrandom int) int {
 				stderr := ch.stderr.String()
 				fn, msg := crashSignature(stderr)
 				add(Finding{Signature: "crash-after|" + ep + "|" + fn, Msg: fmt.Sprintf("after request %q the process terminates: %s", rq.Label, msg), Label: rq.Label, Req: rq, Detail: stderr})
-				restarts++
+				mu.Lock()
+			*restarts++
+			mu.Unlock()
 				if !restart() {
-					infra = append(infra, "cannot restart child")
+					mu.Lock()
+				*infra = append(*infra, "cannot restart child")
+				mu.Unlock()
 					break
 				}
 				continue
@@ -856,9 +920,13 @@ func run(casesPath, outPath string, seed int64, nrandom int) int {
 					fault = "client_abort"
 				}
 				add(Finding{Signature: "leak|" + strings.Fields(cs.Left[0])[0] + "|db=" + fault, Msg: fmt.Sprintf("after request %q (status %d) goroutine(s) started for it are still alive: %v", rq.Label, rs.Code, cs.Left), Label: rq.Label, Req: rq})
-				restarts++
+				mu.Lock()
+			*restarts++
+			mu.Unlock()
 				if !restart() {
-					infra = append(infra, "cannot restart child")
+					mu.Lock()
+				*infra = append(*infra, "cannot restart child")
+				mu.Unlock()
 					break
 				}
 			}
@@ -867,19 +935,6 @@ func run(casesPath, outPath string, seed int64, nrandom int) int {
 	if ch != nil {
 		ch.kill()
 	}
-	var ul []string
-	for u := range unsup {
-		ul = append(ul, u)
-	}
-	sort.Strings(ul)
-	res := map[string]any{"requests": len(reqs), "cases": len(cases), "random_queries": len(reqs) - len(cases), "status_codes": codes, "child_restarts": restarts,
-		"findings": findings, "signature_counts": sigCount, "infra": infra, "chsql_unsupported": ul}
-	b, _ := json.MarshalIndent(res, "", " ")
-	os.WriteFile(outPath, b, 0644)
-	if len(infra) > 0 {
-		return 2
-	}
-	return 0
 }
 
 func main() {
@@ -897,7 +952,9 @@ func main() {
 		out := fs.String("out", "", "")
 		seed := fs.Int64("seed", 1, "")
 		nr := fs.Int("random", 30, "")
+		sh := fs.Int("shards", 6, "")
 		fs.Parse(os.Args[2:])
+		shards = *sh
 		os.Exit(run(*cases, *out, *seed, *nr))
 	}
 }
